@@ -130,6 +130,14 @@ Definition row_ok (seed : N) (s : scope) (a : N) (row : acct_row) : Prop :=
   | AWatchOnly => (exists x cn, ar_pub row = xpub_key x cn) /\ ar_priv row = None
   end.
 
+(** an imported key: WIF number [n] (private key stored), or public key number
+    [n] imported on its own (no private key) *)
+Definition imp_name (pubonly : bool) (n : N) : skey := if pubonly then imp_pub_key n else imp_key n.
+Definition imp_priv (pubonly : bool) (n : N) : option skey := if pubonly then None else Some (imp_key n).
+
+Lemma imp_name_private po n k : imp_name po n = imp_key k -> po = false /\ n = k.
+Proof. destruct po; unfold imp_name, imp_pub_key, imp_key; intros H; inversion H. auto. Qed.
+
 Definition addr_row_ok (D : disk) (s : scope) (k : akey) (r : addr_row) : Prop :=
   match r with
   | RChain a b i =>
@@ -137,10 +145,10 @@ Definition addr_row_ok (D : disk) (s : scope) (k : akey) (r : addr_row) : Prop :
       aget scope_eq_dec (d_scopes D) s = Some (sch, coin) /\
       k = addr_key (AKey (row_fmt sch row b) (Pub (path_skey (ar_pub row) b i)))
   | RImported pk prv =>
-    exists n sch coin, pk = imp_key n /\ prv = Some (imp_key n) /\
+    exists n sch coin po, pk = imp_name po n /\ prv = imp_priv po n /\
       aget scope_eq_dec (d_scopes D) s = Some (sch, coin) /\
       k = addr_key (AKey (ext_fmt sch) (Pub pk))
-  | RScript sc => k = KScript sc
+  | RScript sc _ => k = KScript sc
   end.
 
 Definition disk_ok (seed : N) (D : disk) : Prop :=
@@ -182,8 +190,8 @@ Definition chain_ok (D : disk) (ma : maddr) : Prop :=
     ma_internal ma = (dp_branch (ma_path ma) =? internal_branch).
 
 Definition imported_ok (D : disk) (ma : maddr) : Prop :=
-  exists n sch coin,
-    ma_pub ma = Pub (imp_key n) /\ ma_enc ma = Some (Priv (imp_key n)) /\
+  exists n sch coin po,
+    ma_pub ma = Pub (imp_name po n) /\ ma_enc ma = option_map Priv (imp_priv po n) /\
     ma_path ma = imported_path /\ ma_internal ma = false /\
     aget scope_eq_dec (d_scopes D) (ma_scope ma) = Some (sch, coin) /\ ma_fmt ma = ext_fmt sch.
 
@@ -459,38 +467,127 @@ End prims.
 
 (* ------------------------------------------------------ 4. derivation pieces *)
 
-Lemma x_derive_spec x i y :
-  x_derive x i = Some y -> x_skey y = raw_child (x_skey x) i /\ x_is_private y = x_is_private x.
+(** the key algebra: the specified rule names the child for every [lz]; the
+    other rule leaves the tree below a key with a leading zero; the worst-case
+    instance [all_lz] the model runs with decides for all instances *)
+Lemma rule_eqb_refl r : rule_eqb r r = true.
+Proof. destruct r; reflexivity. Qed.
+
+Lemma rule_eqb_eq a b : rule_eqb a b = true <-> a = b.
+Proof. destruct a, b; simpl; split; intros H; try reflexivity; try discriminate. Qed.
+
+Lemma ckd_spec lz k i : ckd lz (spec_rule k i) k i = raw_child k i.
+Proof. unfold ckd. rewrite rule_eqb_refl. simpl. rewrite andb_false_r. reflexivity. Qed.
+
+Lemma ckd_unhardened lz r k i : is_hardened i = false -> ckd lz r k i = raw_child k i.
+Proof. intros H. unfold ckd. rewrite H. reflexivity. Qed.
+
+Lemma ckd_no_leading_zero lz r k i : lz k = false -> ckd lz r k i = raw_child k i.
+Proof. intros H. unfold ckd. rewrite H, andb_false_r. reflexivity. Qed.
+
+Lemma off_spec_ne k i : off_spec k i <> raw_child k i.
 Proof.
-  destruct x as [k|k]; simpl.
-  - intros H. inversion H. subst. simpl. tauto.
-  - destruct (is_hardened i); [discriminate|]. intros H. inversion H. subst. simpl. tauto.
+  unfold off_spec, raw_child, child. intros H.
+  assert (E : k_root (if is_hardened i then {| k_root := k_root k; k_path := k_path k ++ [(i - hardened_start, true)] |}
+                      else {| k_root := k_root k; k_path := k_path k ++ [(i, false)] |}) = k_root k)
+    by (destruct (is_hardened i); reflexivity).
+  apply (f_equal k_root) in H. simpl in H. rewrite E in H.
+  clear -H. induction (k_root k); try discriminate. inversion H. auto.
 Qed.
 
-Lemma x_derive_priv k i : x_derive (XPriv k) i = Some (XPriv (raw_child k i)).
-Proof. reflexivity. Qed.
+Lemma ckd_wrong_rule lz r k i :
+  is_hardened i = true -> lz k = true -> r <> spec_rule k i -> ckd lz r k i <> raw_child k i.
+Proof.
+  intros Hh Hz Hr. unfold ckd. rewrite Hh, Hz. simpl.
+  destruct (rule_eqb r (spec_rule k i)) eqn:E; [apply rule_eqb_eq in E; contradiction|]. simpl. apply off_spec_ne.
+Qed.
+
+(** with [all_lz], a derivation names the child iff the step is unhardened or made with the specified rule ... *)
+Lemma ckd_all_lz_iff r k i :
+  ckd all_lz r k i = raw_child k i <-> (is_hardened i = false \/ r = spec_rule k i).
+Proof.
+  split.
+  - intros H. destruct (is_hardened i) eqn:Hh; [|left; reflexivity]. right.
+    destruct (rule_eq_dec r (spec_rule k i)) as [E|E]; [exact E|].
+    exfalso. exact (ckd_wrong_rule all_lz r k i Hh eq_refl E H).
+  - intros [H|H]; [apply ckd_unhardened; exact H|subst; apply ckd_spec].
+Qed.
+
+(** ... and then it does for every assignment of leading zeros *)
+Lemma ckd_all_lz r k i : ckd all_lz r k i = raw_child k i -> forall lz, ckd lz r k i = raw_child k i.
+Proof.
+  intros H lz. apply ckd_all_lz_iff in H. destruct H as [H|H]; [apply ckd_unhardened; exact H|subst; apply ckd_spec].
+Qed.
+
+(** a step of the model is "on specification" *)
+Definition on_spec (x : xkey) (i : N) : Prop :=
+  match x with
+  | XPriv k w => is_hardened i = true -> rule_of_width w = spec_rule k i
+  | XPub _ => True
+  end.
+
+Lemma x_derive_spec x i y :
+  on_spec x i -> x_derive x i = Some y -> x_skey y = raw_child (x_skey x) i /\ x_is_private y = x_is_private x.
+Proof.
+  destruct x as [k w|k]; simpl.
+  - intros Ho H. inversion H. subst. simpl. split; [|reflexivity].
+    apply ckd_all_lz_iff. destruct (is_hardened i); [right; apply Ho; reflexivity|left; reflexivity].
+  - destruct (is_hardened i); [discriminate|]. intros _ H. inversion H. subst. simpl. tauto.
+Qed.
+
+Lemma on_spec_unhardened x i : is_hardened i = false -> on_spec x i.
+Proof. intros H. destruct x; simpl; [rewrite H; discriminate|exact Logic.I]. Qed.
+
+Lemma x_derive_priv k w i :
+  on_spec (XPriv k w) i -> x_derive (XPriv k w) i = Some (XPriv (raw_child k i) Short).
+Proof.
+  intros Ho. simpl. f_equal. f_equal.
+  apply ckd_all_lz_iff. simpl in Ho. destruct (is_hardened i); [right; apply Ho; reflexivity|left; reflexivity].
+Qed.
 
 Lemma x_derive_pub k i : is_hardened i = false -> x_derive (XPub k) i = Some (XPub (raw_child k i)).
 Proof. intros H. simpl. rewrite H. reflexivity. Qed.
 
-(** every private account key in memory is the private view of the public one *)
-Definition ai_wf (ai : acct_info) : Prop := forall p, ai_priv ai = Some p -> p = ai_pub ai.
+(** the shape of an account key made from a seed: m/purpose'/coin'/account' *)
+Definition acct_shape (p : skey) : Prop := exists seed pu co a, p = acct_key seed pu co a.
+
+(** both steps below a full-width account key are on specification: the branch
+    step BIP32 (full-width parent), the index step legacy (shortened parent) *)
+Lemma acct_shape_branch p b : acct_shape p -> on_spec (XPriv p Full) b.
+Proof. intros (seed & pu & co & a & ->) _. reflexivity. Qed.
+
+Lemma acct_shape_index p b i : acct_shape p -> on_spec (XPriv (raw_child p b) Short) i.
+Proof.
+  intros (seed & pu & co & a & ->) _. unfold raw_child. destruct (is_hardened b); reflexivity.
+Qed.
+
+(** every private account key in memory is the private view of the public one,
+    and a seed-made account key *)
+Definition ai_wf (ai : acct_info) : Prop := forall p, ai_priv ai = Some p -> p = ai_pub ai /\ acct_shape p.
+
+Lemma derive_key_priv_ok ai b i p :
+  ai_priv ai = Some p -> acct_shape p -> derive_key ai b i true = DOk (XPriv (path_skey p b i) Short).
+Proof.
+  intros H Hs. unfold derive_key. rewrite H. cbn [option_map].
+  rewrite (x_derive_priv p Full b (acct_shape_branch p b Hs)).
+  rewrite (x_derive_priv (raw_child p b) Short i (acct_shape_index p b i Hs)). reflexivity.
+Qed.
+
+Lemma derive_key_priv_wf ai b i p :
+  ai_wf ai -> ai_priv ai = Some p -> derive_key ai b i true = DOk (XPriv (path_skey p b i) Short).
+Proof. intros Hwf H. apply derive_key_priv_ok; [exact H|apply (Hwf p H)]. Qed.
 
 Lemma derive_key_spec ai b i pr k :
   ai_wf ai -> derive_key ai b i pr = DOk k ->
   x_is_private k = pr /\ x_skey k = path_skey (ai_pub ai) b i /\ (pr = true -> ai_priv ai <> None).
 Proof.
-  intros Hwf. unfold derive_key.
-  destruct pr.
-  - destruct (ai_priv ai) as [p|] eqn:Ep; simpl; [|discriminate].
-    rewrite (Hwf p Ep). intros H. inversion H. subst. simpl. repeat split. discriminate.
-  - simpl. destruct (is_hardened b); [discriminate|]. simpl.
+  intros Hwf. destruct pr.
+  - destruct (ai_priv ai) as [p|] eqn:Ep; [|unfold derive_key; rewrite Ep; discriminate].
+    destruct (Hwf p Ep) as (E & Hs). rewrite (derive_key_priv_ok ai b i p Ep Hs).
+    intros H. inversion H. subst. simpl. repeat split. discriminate.
+  - unfold derive_key. simpl. destruct (is_hardened b); [discriminate|]. simpl.
     destruct (is_hardened i); [discriminate|]. intros H. inversion H. subst. simpl. repeat split. discriminate.
 Qed.
-
-Lemma derive_key_priv_ok ai b i p :
-  ai_priv ai = Some p -> derive_key ai b i true = DOk (XPriv (path_skey p b i)).
-Proof. intros H. unfold derive_key. rewrite H. reflexivity. Qed.
 
 Lemma derive_key_pub_ok ai b i :
   is_hardened b = false -> is_hardened i = false ->
@@ -503,7 +600,7 @@ Lemma mk_maddr_spec s path key fmt ai ma :
   ma_imported ma = false /\ ma_internal ma = false /\
   ma_enc ma = (if x_is_private key then Some (Priv (x_skey key)) else None) /\ ma_ct ma = ma_enc ma.
 Proof.
-  unfold mk_maddr. destruct key as [k|k].
+  unfold mk_maddr. destruct key as [k w|k].
   - destruct (ai_priv ai).
     + destruct (derive_key ai (dp_branch path) (dp_index path) true) as [rk| |]; try discriminate.
       destruct (skey_eq_dec (x_skey rk) k); [|discriminate]. intros H. inversion H. subst. simpl. tauto.
@@ -516,10 +613,11 @@ Lemma mk_maddr_total s path key fmt ai pr :
   ai_wf ai -> derive_key ai (dp_branch path) (dp_index path) pr = DOk key ->
   mk_maddr s path key fmt ai <> None.
 Proof.
-  intros Hwf Hd. unfold mk_maddr. destruct key as [k|k]; [|discriminate].
+  intros Hwf Hd. unfold mk_maddr. destruct key as [k w|k]; [|discriminate].
   destruct (derive_key_spec _ _ _ _ _ Hwf Hd) as (Hp & Hk & Hn). simpl in Hp. subst pr. simpl in Hk.
   destruct (ai_priv ai) as [p|] eqn:Ep; [|discriminate].
-  rewrite (derive_key_priv_ok _ _ _ _ Ep). simpl. rewrite (Hwf p Ep), <- Hk.
+  destruct (Hwf p Ep) as (Epub & Hshape).
+  rewrite (derive_key_priv_ok _ _ _ _ Ep Hshape). simpl. rewrite Epub, <- Hk.
   destruct (skey_eq_dec k k); [discriminate|contradiction].
 Qed.
 
@@ -528,7 +626,8 @@ Proof.
   intros (_ & _ & Hr & _) (row & H1 & _ & H3 & _ & _ & _ & H7) p Hp.
   destruct (Hr s a row H1) as (Hrow & _). rewrite H7 in Hp. destruct lk; [discriminate|].
   unfold row_ok in Hrow. destruct (ar_kind row).
-  - destruct Hrow as (_ & E & _). rewrite E in Hp. inversion Hp. congruence.
+  - destruct Hrow as (Ek & E & _). rewrite E in Hp. inversion Hp. split; [congruence|].
+    rewrite Ek. unfold acct_shape. eauto.
   - destruct Hrow as (_ & E). rewrite E in Hp. discriminate.
 Qed.
 
@@ -727,7 +826,7 @@ Section helpers.
       - destruct Hai as (row & R1 & R2 & R3 & R4 & R5 & R6 & R7).
         destruct lk; [discriminate|]. simpl in Hhp. rewrite R4 in Hhp.
         destruct (ar_priv row) as [p|] eqn:Ep; [|discriminate].
-        eexists. apply derive_key_priv_ok. exact R7.
+        eexists. apply (derive_key_priv_wf _ _ _ p Hwf). exact R7.
       - eexists. apply derive_key_pub_ok; [destruct Hb; subst; reflexivity|apply last_index_not_hardened; exact Hn]. }
     destruct Hd as (k & Hd). unfold last_obj. rewrite Hd.
     set (path := mkPath a (child_num (ai_pub ai)) branch (last_index next) (ai_fp ai)).
@@ -1083,7 +1182,7 @@ Section lookup.
         simpl. intros _ row Hrow. rewrite N3. simpl. rewrite N2, N3, P4 in Hrow. simpl in Hrow.
         destruct S1 as (row' & R1 & _ & R3 & _). rewrite R1 in Hrow. inversion Hrow. subst row'.
         rewrite <- R3. destruct pr; [|reflexivity].
-        destruct (ai_priv ai) as [p|] eqn:Ep; [rewrite (Hwf p Ep)|]; reflexivity.
+        destruct (ai_priv ai) as [p|] eqn:Ep; [rewrite (proj1 (Hwf p Ep))|]; reflexivity.
   Qed.
 
   Lemma row_to_managed_post st s sch k row :
@@ -1096,14 +1195,14 @@ Section lookup.
                  match row with
                  | RChain a b i => chain_obj_at st' oid s a b i
                  | RImported pk _ => exists ma, o = MKey ma /\ ma_imported ma = true /\ ma_pub ma = Pub pk
-                 | RScript sc => exists sa, o = MScript sa /\ sa_script sa = sc
+                 | RScript sc _ => exists sa, o = MScript sa /\ sa_script sa = sc
                  end) /\
       st_disk st' = st_disk st /\ m_addrs (st_mem st') = m_addrs (st_mem st)).
   Proof.
     intros I Hl Hs Hrow.
     destruct (i_disk _ _ _ I) as (_ & _ & _ & HA & _). pose proof (HA s k row Hrow) as Hok.
     destruct (i_scopes _ _ _ I s sch Hs) as (coin & Hsc).
-    destruct row as [a b i|pk prv|sc]; unfold row_to_managed; simpl in Hok.
+    destruct row as [a b i|pk prv|sc secret]; unfold row_to_managed; simpl in Hok.
     - eapply res_post_weaken'; [apply chain_row_to_managed_post; assumption|].
       intros st' oid I' E' (P1 & P2 & P3 & P4). splits; try assumption.
       destruct P1 as (ma & row & sch' & coin' & Q1 & Q2 & Q3 & Q4 & Q5 & Q6 & Q7 & Q8 & Q9 & Q10 & Q11).
@@ -1113,12 +1212,13 @@ Section lookup.
         rewrite B1 in Q7. inversion Q7. subst row0. rewrite B2 in Q8. inversion Q8. subst sch0 coin0.
         rewrite B3. unfold obj_akey. simpl. rewrite Q9, Q10. reflexivity.
       + exists ma, row, sch', coin'. splits; assumption.
-    - destruct Hok as (n & sch0 & coin0 & B1 & B2 & B3 & B4). rewrite Hsc in B3. inversion B3. subst sch0 coin0 pk prv.
-      set (o := MKey (mkMA s imported_path (ext_fmt sch) (Pub (imp_key n)) true false (option_map Priv (Some (imp_key n))) None)).
+    - destruct Hok as (n & sch0 & coin0 & po & B1 & B2 & B3 & B4). rewrite Hsc in B3. inversion B3. subst sch0 coin0 pk prv.
+      set (o := MKey (mkMA s imported_path (ext_fmt sch) (Pub (imp_name po n)) true false (option_map Priv (imp_priv po n)) None)).
       assert (Hobj : obj_ok (st_disk st) o).
       { simpl. split.
-        - unfold keys_ok. simpl. split; intros x Hx; inversion Hx; reflexivity.
-        - exists n, sch, coin. simpl. splits; try reflexivity. exact Hsc. }
+        - unfold keys_ok. simpl. split; intros x Hx; [|discriminate].
+          destruct po; simpl in Hx; inversion Hx; reflexivity.
+        - exists n, sch, coin, po. simpl. splits; try reflexivity. exact Hsc. }
       destruct (alloc_post seed lk st o I Hobj) as (I1 & E1 & A1 & A2 & A3 & A4 & A5 & A6).
       destruct (alloc st o) as [st1 oid] eqn:Ea. simpl in A1, A2, A3, A4, A5, A6, I1, E1. subst oid.
       assert (Hnth : nth_error (m_heap (st_mem st1)) (length (m_heap (st_mem st))) = Some o).
@@ -1130,7 +1230,7 @@ Section lookup.
         * rewrite B4. reflexivity.
         * simpl. discriminate.
         * eexists. splits; reflexivity.
-    - set (o := MScript (mkSA s sc (Some sc) None)).
+    - set (o := MScript (mkSA s sc (Some sc) None secret)).
       assert (Hobj : obj_ok (st_disk st) o) by (simpl; split; [reflexivity|discriminate]).
       destruct (alloc_post seed lk st o I Hobj) as (I1 & E1 & A1 & A2 & A3 & A4 & A5 & A6).
       destruct (alloc st o) as [st1 oid] eqn:Ea. simpl in A1, A2, A3, A4, A5, A6, I1, E1. subst oid.
@@ -1274,17 +1374,17 @@ Section issue.
         by (destruct internal; reflexivity).
       cbn [make_objs].
       assert (Hx : exists key, x_derive bk idx = Some key).
-      { destruct bk as [k|k]; simpl; [eauto|]. rewrite Hh. eauto. }
+      { destruct bk as [k w|k]; simpl; [eauto|]. rewrite Hh. eauto. }
       destruct Hx as (key & Hx). rewrite Hx.
-      destruct (x_derive_spec _ _ _ Hx) as (X1 & X2).
+      destruct (x_derive_spec _ _ _ (on_spec_unhardened bk idx Hh) Hx) as (X1 & X2).
       set (br := if internal then internal_branch else external_branch) in *.
       set (path := mkPath a acct_child br idx fp).
       assert (Hkey : x_skey key = path_skey (ai_pub ai) (dp_branch path) (dp_index path)).
       { simpl. rewrite X1, Hbk. reflexivity. }
       assert (Hmk : exists ma, mk_maddr s path key (acct_fmt sch ai internal) ai = Some ma).
-      { unfold mk_maddr. destruct key as [k|k]; [|eauto].
+      { unfold mk_maddr. destruct key as [k w|k]; [|eauto].
         destruct (ai_priv ai) as [p|] eqn:Ep; [|eauto].
-        rewrite (derive_key_priv_ok _ _ _ _ Ep). simpl. simpl in Hkey. rewrite Hkey, (Hwf p Ep).
+        rewrite (derive_key_priv_wf _ _ _ _ Hwf Ep). simpl. simpl in Hkey. rewrite Hkey, (proj1 (Hwf p Ep)).
         destruct (skey_eq_dec _ _); [eauto|contradiction]. }
       destruct Hmk as (ma & Hmk). rewrite Hmk.
       destruct (mk_maddr_spec _ _ _ _ _ _ Hmk) as (F1 & F2 & F3 & F4 & F5 & F6 & F7 & F8).
@@ -1340,7 +1440,7 @@ Section issue2.
     assert (Hd : exists k, derive_key ai b i pr = DOk k).
     { unfold pr. destruct (ai_priv ai) as [p|] eqn:E.
       - destruct (negb (locked st)); simpl.
-        + eexists. apply derive_key_priv_ok. exact E.
+        + eexists. apply (derive_key_priv_wf _ _ _ p Hwf). exact E.
         + eexists. apply derive_key_pub_ok; assumption.
       - rewrite andb_false_r. eexists. apply derive_key_pub_ok; assumption. }
     destruct Hd as (k & Hd). rewrite Hd.
@@ -1758,16 +1858,17 @@ Section next_ext2.
       [exact Herr|].
     apply orb_false_iff in Hmax. destruct Hmax as (Hm1 & Hm2). apply N.ltb_ge in Hm1, Hm2.
     set (use_priv := negb (locked st1) && negb watch_only).
-    destruct (if use_priv then option_map XPriv (ai_priv ai) else Some (XPub (ai_pub ai))) as [ak|] eqn:Hak;
+    destruct (if use_priv then option_map (fun k => XPriv k Full) (ai_priv ai) else Some (XPub (ai_pub ai))) as [ak|] eqn:Hak;
       [|exact Herr].
     assert (Hakk : x_skey ak = ai_pub ai /\ x_is_private ak = (use_priv && is_some (ai_priv ai))).
     { destruct use_priv.
       - destruct (ai_priv ai) as [p|] eqn:Ep; [|discriminate]. simpl in Hak. inversion Hak. subst ak. simpl.
-        rewrite (Hwf p Ep). split; reflexivity.
+        rewrite (proj1 (Hwf p Ep)). split; reflexivity.
       - inversion Hak. subst ak. split; reflexivity. }
     destruct Hakk as (Hak1 & Hak2).
     destruct (x_derive ak branch) as [bk|] eqn:Hbk; [|exact Herr].
-    destruct (x_derive_spec _ _ _ Hbk) as (B1 & B2).
+    assert (Hbrh : is_hardened branch = false) by (unfold branch; destruct internal; reflexivity).
+    destruct (x_derive_spec _ _ _ (on_spec_unhardened ak branch Hbrh) Hbk) as (B1 & B2).
     destruct (n =? 0) eqn:Hn0; [exact Herr|]. apply N.eqb_neq in Hn0.
     (* the objects *)
     assert (Hidx : Forall (fun idx => is_hardened idx = false) (index_range next (N.to_nat n))).
@@ -1897,21 +1998,22 @@ Section extend.
     apply N.ltb_ge in Hlast.
     destruct (max_addresses_per_account <? last) eqn:Hmax; [exact Herr|]. apply N.ltb_ge in Hmax.
     set (use_priv := negb (locked st1) && negb watch_only).
-    destruct (if use_priv then option_map XPriv (ai_priv ai) else Some (XPub (ai_pub ai))) as [ak|] eqn:Hak;
+    destruct (if use_priv then option_map (fun k => XPriv k Full) (ai_priv ai) else Some (XPub (ai_pub ai))) as [ak|] eqn:Hak;
       [|exact Herr].
     assert (Hakk : x_skey ak = ai_pub ai /\ x_is_private ak = (use_priv && is_some (ai_priv ai))).
     { destruct use_priv.
       - destruct (ai_priv ai) as [p|] eqn:Ep; [|discriminate]. simpl in Hak. inversion Hak. subst ak. simpl.
-        rewrite (Hwf p Ep). split; reflexivity.
+        rewrite (proj1 (Hwf p Ep)). split; reflexivity.
       - inversion Hak. subst ak. split; reflexivity. }
     destruct Hakk as (Hak1 & Hak2).
     destruct (x_derive ak branch) as [bk|] eqn:Hbk; [|exact Herr].
-    destruct (x_derive_spec _ _ _ Hbk) as (B1 & B2).
+    assert (Hbrh : is_hardened branch = false) by (unfold branch; destruct internal; reflexivity).
+    destruct (x_derive_spec _ _ _ (on_spec_unhardened ak branch Hbrh) Hbk) as (B1 & B2).
     destruct (ext_count next last Hlast) as (c & Hc & Hc').
     assert (Hidx : Forall (fun idx => is_hardened idx = false) (index_range next (N.to_nat (last + 1 - next)))).
     { apply index_range_not_hardened. apply range_bound_ext; assumption. }
     assert (Hbks : x_skey bk = raw_child (ai_pub ai) branch) by (rewrite B1, Hak1; reflexivity).
-    destruct (make_objs_post seed lk s sch a ai bk (child_num (ai_pub ai)) branch 0 internal
+    destruct (make_objs_post seed lk s sch a ai bk (child_num (ai_pub ai)) branch (ai_fp ai) internal
                              (index_range next (N.to_nat (last + 1 - next))) st1 I1 Hs1 S1 Hbks eq_refl Hidx)
       as (st2 & objs & M0 & I2 & E2 & D2 & C2 & A2 & Q2 & S2 & L2 & G2 & P2).
     rewrite M0. cbn [bind]. cbv zeta.
@@ -1971,7 +2073,7 @@ End extend.
 Definition enc_same (o o' : mobj) : Prop :=
   match o, o' with
   | MKey a, MKey b => ma_enc a = ma_enc b
-  | MScript a, MScript b => sa_enc a = sa_enc b
+  | MScript a, MScript b => sa_enc a = sa_enc b /\ sa_secret a = sa_secret b
   | _, _ => False
   end.
 
@@ -1993,11 +2095,11 @@ Record pres (st st' : state) : Prop := mkPres {
 Lemma same_shape_refl o : same_shape o o.
 Proof. destruct o; simpl; tauto. Qed.
 Lemma enc_same_refl o : enc_same o o.
-Proof. destruct o; simpl; reflexivity. Qed.
+Proof. destruct o; simpl; [reflexivity|split; reflexivity]. Qed.
 Lemma same_shape_trans a b c : same_shape a b -> same_shape b c -> same_shape a c.
 Proof. destruct a, b, c; simpl; try tauto; intuition congruence. Qed.
 Lemma enc_same_trans a b c : enc_same a b -> enc_same b c -> enc_same a c.
-Proof. destruct a, b, c; simpl; try tauto; congruence. Qed.
+Proof. destruct a, b, c; simpl; try tauto; intuition congruence. Qed.
 
 Lemma pres_refl st : pres st st.
 Proof. constructor; try reflexivity. intros i o H. exists o. auto using same_shape_refl, enc_same_refl. Qed.
@@ -2076,7 +2178,7 @@ Section getters.
     { simpl. split.
       - unfold keys_ok. simpl. split; intros x Hx; inversion Hx; subst; [apply K1; exact Ek|exact Hct].
       - destruct (ma_imported ma); [|exact Hrest].
-        destruct Hrest as (n & sch & coin & R1 & R2 & R3). exists n, sch, coin. simpl. rewrite <- Ek. tauto. }
+        destruct Hrest as (n & sch & coin & po & R1 & R2 & R3). exists n, sch, coin, po. simpl. rewrite <- Ek. tauto. }
     destruct (heap_set_pres seed lk st oid (MKey ma) o' I Ho) as (I' & P' & H'); try exact Hobj.
     + simpl. tauto.
     + simpl. exact Ek.
@@ -2089,24 +2191,24 @@ Section getters.
     m_handles (st_mem (fst (script_of st oid))) = m_handles (st_mem st) /\
     match nth_error (m_heap (st_mem st)) oid with
     | Some (MScript sa) =>
-      snd (script_of st oid) = if m_locked (st_mem st) then SErr ELocked else SOk (sa_script sa)
+      snd (script_of st oid) = if sa_secret sa && m_locked (st_mem st) then SErr ELocked else SOk (sa_script sa)
     | _ => snd (script_of st oid) = SErr EOther
     end.
   Proof.
     intros I. unfold script_of, heap_get, locked.
     destruct (nth_error (m_heap (st_mem st)) oid) as [[ma|sa]|] eqn:Ho; simpl;
       try (splits; [exact I|apply pres_refl|reflexivity|reflexivity]).
-    destruct (m_locked (st_mem st)); simpl; [splits; [exact I|apply pres_refl|reflexivity|reflexivity]|].
+    destruct (sa_secret sa && m_locked (st_mem st)); simpl; [splits; [exact I|apply pres_refl|reflexivity|reflexivity]|].
     destruct (i_heap _ _ _ I _ _ Ho) as (K1 & K2). simpl in K1, K2. rewrite K1. simpl.
     set (ct := match sa_ct sa with Some c => c | None => sa_script sa end).
     assert (Hct : ct = sa_script sa).
     { unfold ct. destruct (sa_ct sa) as [c|] eqn:Ec; [apply K2; reflexivity|reflexivity]. }
-    set (o' := MScript (mkSA (sa_scope sa) (sa_script sa) (Some (sa_script sa)) (Some ct))).
+    set (o' := MScript (mkSA (sa_scope sa) (sa_script sa) (Some (sa_script sa)) (Some ct) (sa_secret sa))).
     assert (Hobj : obj_ok (st_disk st) o').
     { simpl. split; [reflexivity|]. intros c Hc. inversion Hc. subst. exact Hct. }
     destruct (heap_set_pres seed lk st oid (MScript sa) o' I Ho) as (I' & P' & H'); try exact Hobj.
     + simpl. tauto.
-    + simpl. exact K1.
+    + simpl. split; [exact K1|reflexivity].
     + splits; try assumption. rewrite Hct. reflexivity.
   Qed.
 End getters.
@@ -2125,7 +2227,7 @@ Definition rinfo_desc (lkd : bool) (o : mobj) (r : rinfo) : Prop :=
                            | Some _ => POk (Priv (skey_of_pub (ma_pub ma)))
                            end))
   | MScript sa =>
-    r = RScr (sa_scope sa) (sa_script sa) (if lkd then SErr ELocked else SOk (sa_script sa))
+    r = RScr (sa_scope sa) (sa_script sa) (if sa_secret sa && lkd then SErr ELocked else SOk (sa_script sa))
   end.
 
 Section reports.
@@ -2191,7 +2293,7 @@ Section reports.
         exists o0. split; [exact O0|]. rewrite <- (p_locked _ _ P1).
         destruct o0 as [a|a], o1 as [b|b]; simpl in S0, E0; try contradiction; simpl in *.
         * destruct S0 as (S1 & S2 & S3 & S4 & S5 & S6). rewrite S1, S2, S3, S4, S5, S6, E0. exact O2.
-        * destruct S0 as (S1 & S2). rewrite S1, S2. exact O2.
+        * destruct S0 as (S1 & S2). destruct E0 as (_ & E1). rewrite S1, S2, E1. exact O2.
       + apply IHx. assumption.
   Qed.
 End reports.
@@ -2228,7 +2330,7 @@ Proof.
   - pose proof (nth_error_Some_lt _ _ _ Ho). destruct (Nat.ltb_spec i (length h)); [|lia].
     rewrite Ho in Hx. inversion Hx. subst x. exists (clear_ct o). splits; [reflexivity| | |intros D; apply clear_ct_ok].
     + destruct o; simpl; tauto.
-    + destruct o; simpl; reflexivity.
+    + destruct o; simpl; [reflexivity|split; reflexivity].
   - exists x. splits; auto using same_shape_refl, enc_same_refl.
 Qed.
 
@@ -2337,15 +2439,15 @@ Section unlocking.
       destruct (ai_priv ai) as [p|] eqn:Ep.
       2: { exfalso. destruct (i_accts _ _ _ I _ _ _ Ec) as (row' & R1 & _ & _ & _ & _ & _ & R7).
            rewrite Q7 in R1. inversion R1. subst row'. rewrite Ep in R7. simpl in R7. congruence. }
-      simpl is_some. rewrite (derive_key_priv_ok _ _ _ _ Ep).
       (* the filled object *)
       pose proof (i_accts _ _ _ I _ _ _ Ec) as Hai.
       pose proof (ai_static_wf _ _ _ _ _ _ (i_disk _ _ _ I) Hai) as Hwf.
+      simpl is_some. rewrite (derive_key_priv_wf _ _ _ _ Hwf Ep).
       destruct (i_heap _ _ _ I _ _ Q1) as (HK & Hch). rewrite Q2 in Hch.
       destruct Hch as (row & sch' & coin & C1 & C2 & C3 & C4 & C5).
       destruct Hai as (row' & R1 & _ & R3 & _). rewrite Q3 in C1. rewrite R1 in C1. inversion C1. subst row'.
       assert (Hk : path_skey p b i = skey_of_pub (ma_pub ma)).
-      { rewrite C3, Q4, Q5, (Hwf p Ep), R3. reflexivity. }
+      { rewrite C3, Q4, Q5, (proj1 (Hwf p Ep)), R3. reflexivity. }
       set (mb := set_keys (Some (Priv (path_skey p b i))) (Some (Priv (path_skey p b i))) ma).
       assert (Hobj : obj_ok (st_disk st) (MKey mb)).
       { simpl. split.
@@ -2471,7 +2573,7 @@ Lemma obj_ok_grow D D' o : dgrow D D' -> obj_ok D o -> obj_ok D' o.
 Proof.
   intros G. destruct o as [ma|sa]; simpl; [|tauto]. intros (K & H). split; [exact K|].
   destruct (ma_imported ma).
-  - destruct H as (n & sch & coin & H1 & H2 & H3 & H4 & H5 & H6). exists n, sch, coin.
+  - destruct H as (n & sch & coin & po & H1 & H2 & H3 & H4 & H5 & H6). exists n, sch, coin, po.
     splits; try assumption. apply (g_scopes _ _ G). exact H5.
   - destruct H as (row & sch & coin & H1 & H2 & H3). exists row, sch, coin.
     split; [apply (g_accts _ _ G); exact H1|split; [apply (g_scopes _ _ G); exact H2|exact H3]].
@@ -2502,8 +2604,8 @@ Definition rinfo_ok (D : disk) (lkd : bool) (r : rinfo) : Prop :=
     (forall k, r_priv i = POk k -> k = Priv (skey_of_pub (r_pub i))) /\
     (lkd = true -> r_priv i = PErr ELocked) /\
     if r_imported i then
-      exists n, r_pub i = Pub (imp_key n) /\ r_known i = false /\ r_iacct i = imported_acct /\
-                (lkd = false -> r_priv i = POk (Priv (imp_key n)))
+      exists n po, r_pub i = Pub (imp_name po n) /\ r_known i = false /\ r_iacct i = imported_acct /\
+                   (lkd = false -> r_priv i = if po then PErr EWatching else POk (Priv (imp_key n)))
     else
       exists row sch coin,
         aget sa_dec (d_accts D) (r_scope i, r_iacct i) = Some row /\
@@ -2512,7 +2614,7 @@ Definition rinfo_ok (D : disk) (lkd : bool) (r : rinfo) : Prop :=
         r_pub i = Pub (path_skey (ar_pub row) (dp_branch (r_path i)) (dp_index (r_path i))) /\
         r_fmt i = row_fmt sch row (dp_branch (r_path i)) /\
         r_internal i = (dp_branch (r_path i) =? internal_branch)
-  | RScr s sc v => (lkd = false -> v = SOk sc) /\ (lkd = true -> v = SErr ELocked)
+  | RScr s sc v => (lkd = false -> v = SOk sc) /\ (v = SOk sc \/ v = SErr ELocked)
   end.
 
 Lemma rinfo_desc_ok D lkd o r : obj_ok D o -> rinfo_desc lkd o r -> rinfo_ok D lkd r.
@@ -2522,10 +2624,11 @@ Proof.
     + destruct lkd; [discriminate|]. destruct (ma_enc ma); [|discriminate]. intros k Hk. inversion Hk. reflexivity.
     + intros ->. reflexivity.
     + destruct (ma_imported ma) eqn:Ei.
-      * destruct H as (n & sch & coin & H1 & H2 & H3 & _). exists n. rewrite H3. splits; try reflexivity; try assumption.
-        intros ->. rewrite H2, H1. reflexivity.
+      * destruct H as (n & sch & coin & po & H1 & H2 & H3 & _). exists n, po. rewrite H3. splits; try reflexivity; try assumption.
+        intros ->. rewrite H2, H1. destruct po; reflexivity.
       * destruct H as (row & sch & coin & H1 & H2 & H3 & H4 & H5). exists row, sch, coin. splits; try assumption; reflexivity.
-  - split; intros ->; reflexivity.
+  - split; [intros ->; rewrite andb_false_r; reflexivity|].
+    destruct (sa_secret sa && lkd); [right|left]; reflexivity.
 Qed.
 
 (** the reported Account field is the account key's child number *)
@@ -2988,6 +3091,20 @@ Section ops5.
     splits; [exact (conj I' (conj NX HCs))|intros A; exact A|reflexivity].
   Qed.
 
+  Lemma step_chpubpass b st old new :
+    Good seed st ->
+    let st' := fst (step b st (OChangePubPass old new)) in
+    Good seed st' /\ (Avail st -> Avail st') /\ m_locked (st_mem st') = m_locked (st_mem st) /\
+    (forall s a i, disk_next (st_disk st') s a i = disk_next (st_disk st) s a i).
+  Proof.
+    intros G. pose proof G as (I & NX & HCs). cbn [step].
+    destruct (negb (old =? d_pubpass (st_disk st))); simpl; [splits; auto|].
+    assert (I' : Inv0 seed (m_locked (st_mem st)) (upd_disk (set_d_pubpass new) st)).
+    { destruct st as [D M]. unf. destruct I. constructor; unfinv; assumption. }
+    destruct st as [D M]. unf.
+    splits; [exact (conj I' (conj NX HCs))|intros A; exact A|reflexivity|reflexivity].
+  Qed.
+
   Lemma step_priv b st h :
     Good seed st ->
     let st' := fst (step b st (OPriv h)) in
@@ -3021,7 +3138,7 @@ Section ops5.
     st_disk st' = st_disk st /\
     forall oid sa, nth_error (m_handles (st_mem st)) h = Some oid ->
       nth_error (m_heap (st_mem st)) oid = Some (MScript sa) ->
-      snd (step b st (OScript h)) = if m_locked (st_mem st) then OutErr ELocked else OutScript (sa_script sa).
+      snd (step b st (OScript h)) = if sa_secret sa && m_locked (st_mem st) then OutErr ELocked else OutScript (sa_script sa).
   Proof.
     intros G. pose proof G as (I & NX & HCs). cbn [step].
     destruct (nth_error (m_handles (st_mem st)) h) as [oid|] eqn:Eh; simpl;
@@ -3032,7 +3149,7 @@ Section ops5.
     destruct p as [k|e]; simpl;
       (splits; [exact G1|intros A; eapply Avail_pres; eauto|apply (p_locked _ _ P1)|apply (p_disk _ _ P1)|]);
       intros oid' sa Ho Hm; inversion Ho; subst oid'; rewrite Hm in R1;
-      destruct (m_locked (st_mem st)); try discriminate; congruence.
+      destruct (sa_secret sa && m_locked (st_mem st)); try discriminate; congruence.
   Qed.
 
   (** DeriveFromKeyPathCache *)
@@ -3228,9 +3345,55 @@ Proof.
   intros G. destruct r; simpl.
   - intros (row & sch & coin & H1 & H2 & H3). exists row, sch, coin.
     split; [apply (g_accts _ _ G); exact H1|split; [apply (g_scopes _ _ G); exact H2|exact H3]].
-  - intros (n & sch & coin & H1 & H2 & H3 & H4). exists n, sch, coin.
+  - intros (n & sch & coin & po & H1 & H2 & H3 & H4). exists n, sch, coin, po.
     split; [exact H1|split; [exact H2|split; [apply (g_scopes _ _ G); exact H3|exact H4]]].
   - tauto.
+Qed.
+
+(** DeriveNonStandard(i + HardenedKeyStart) when the width of the parent gives the specified rule *)
+Lemma hard_child_on_spec k w i :
+  rule_of_width w = spec_rule k (i + hardened_start) -> hard_child (XPriv k w) i = XPriv (child k i true) Short.
+Proof.
+  intros H. unfold hard_child.
+  assert (Hh : is_hardened (i + hardened_start) = true) by (unfold is_hardened; apply N.leb_le; lia).
+  rewrite (x_derive_priv k w (i + hardened_start)) by (intros _; exact H).
+  unfold raw_child. rewrite Hh. replace (i + hardened_start - hardened_start) with i by lia. reflexivity.
+Qed.
+
+(** newAccount: account a >= 1 from the coin-type key held at full width (BIP32 layout) *)
+Lemma ckd_later_account seed pu co a :
+  a <> 0 -> ckd all_lz Std (coin_key seed pu co) (a + hardened_start) = acct_key seed pu co a.
+Proof.
+  intros Ha.
+  assert (Hh : is_hardened (a + hardened_start) = true) by (unfold is_hardened; apply N.leb_le; lia).
+  assert (Hs : Std = spec_rule (coin_key seed pu co) (a + hardened_start)).
+  { unfold spec_rule, coin_key, child, master. simpl.
+    destruct (a + hardened_start =? hardened_start) eqn:E; [apply N.eqb_eq in E; lia|reflexivity]. }
+  rewrite (proj2 (ckd_all_lz_iff Std _ _) (or_intror Hs)).
+  unfold raw_child, acct_key. rewrite Hh. replace (a + hardened_start - hardened_start) with a by lia. reflexivity.
+Qed.
+
+(** ... and what would happen to account 0 there: the coin-type key at full
+    width gives BIP32 where the specification says legacy - another key *)
+Lemma ckd_account0_from_parsed_coin_key seed pu co :
+  ckd all_lz Std (coin_key seed pu co) hardened_start <> acct_key seed pu co 0.
+Proof.
+  intros H. apply (ckd_wrong_rule all_lz Std (coin_key seed pu co) hardened_start eq_refl eq_refl); [discriminate|].
+  rewrite H. reflexivity.
+Qed.
+
+(** createManagerKeyScope's three steps - root (full width) -> purpose' by the
+    BIP32 layout, purpose' (shortened) -> coin' and coin' (shortened) -> 0' by
+    the legacy layout - are the specified ones: the keys stored are the
+    specification's coin-type key and account-0 key *)
+Lemma create_scope_keys seed pu co :
+  let coin := hard_child (hard_child (XPriv (master seed) Full) pu) co in
+  coin = XPriv (coin_key seed pu co) Short /\ hard_child coin 0 = XPriv (acct_key seed pu co 0) Short.
+Proof.
+  cbv zeta. rewrite (hard_child_on_spec (master seed) Full pu) by reflexivity.
+  rewrite (hard_child_on_spec (child (master seed) pu true) Short co) by reflexivity.
+  split; [reflexivity|]. unfold coin_key.
+  rewrite (hard_child_on_spec (child (child (master seed) pu true) co true) Short 0) by reflexivity. reflexivity.
 Qed.
 
 Lemma Avail_dgrow seed lk D M D' :
@@ -3254,39 +3417,46 @@ Lemma create_scope_grow seed sl D s sch :
 Proof.
   intros (D1 & D2 & D3 & D4 & D5 & D6 & D7) Es.
   set (coin := child (child (d_master D) (fst s) true) (snd s) true).
+  assert (Hcs : create_scope sl D s sch =
+                set_d_scopes (d_scopes D ++ [(s, (sch, coin))])
+                  (set_d_last (if sl then aset scope_eq_dec (d_last D) s 0 else d_last D)
+                     (set_d_accts (aset sa_dec (d_accts D) (s, 0)
+                        (mkRow ADefault (child coin 0 true) (Some (child coin 0 true)) None 0 0)) D))).
+  { unfold create_scope, coin. rewrite D1. destruct (create_scope_keys seed (fst s) (snd s)) as (E1 & E2).
+    cbv zeta in E1, E2. rewrite E2, E1. reflexivity. }
   set (D' := create_scope sl D s sch).
   assert (Hfresh : forall a, aget sa_dec (d_accts D) (s, a) = None).
   { intros a. destruct (aget sa_dec (d_accts D) (s, a)) as [r|] eqn:E; [|reflexivity].
     destruct (D3 s a r E) as (_ & X & _). rewrite Es in X. discriminate. }
   assert (Ga : forall k r, aget sa_dec (d_accts D) k = Some r -> aget sa_dec (d_accts D') k = Some r).
-  { intros k r H. unfold D', create_scope. unf. rewrite aget_aset. destruct (sa_dec k (s, 0)) as [->|]; [|exact H].
+  { intros k r H. unfold D'. rewrite ?Hcs. unf. rewrite aget_aset. destruct (sa_dec k (s, 0)) as [->|]; [|exact H].
     rewrite Hfresh in H. discriminate. }
   assert (Gs : forall s' v, aget scope_eq_dec (d_scopes D) s' = Some v -> aget scope_eq_dec (d_scopes D') s' = Some v).
-  { intros s' v H. unfold D', create_scope. unf. apply aget_app_old. exact H. }
+  { intros s' v H. unfold D'. rewrite ?Hcs. unf. apply aget_app_old. exact H. }
   assert (Gr : dgrow D D') by (constructor; [exact Ga|exact Gs|reflexivity]).
   assert (Hnew : aget scope_eq_dec (d_scopes D') s = Some (sch, coin)).
-  { unfold D', create_scope. unf. rewrite aget_app, Es. destruct (scope_eq_dec s s); [reflexivity|contradiction]. }
+  { unfold D'. rewrite ?Hcs. unf. rewrite aget_app, Es. destruct (scope_eq_dec s s); [reflexivity|contradiction]. }
   splits; [|exact Gr|reflexivity|exact Hnew].
   unfold disk_ok. splits.
   - exact D1.
-  - intros s' sch' coin' H. unfold D', create_scope in H. unf. rewrite aget_app in H.
+  - intros s' sch' coin' H. unfold D' in H. rewrite ?Hcs in H. unf. rewrite aget_app in H.
     destruct (aget scope_eq_dec (d_scopes D) s') as [x|] eqn:E; [inversion H; subst; eauto|].
-    destruct (scope_eq_dec s' s) as [->|]; [|discriminate]. inversion H. subst. unfold coin_key. rewrite D1. reflexivity.
-  - intros s' a' r H. assert (H' := H). unfold D', create_scope in H. unf. rewrite aget_aset in H.
+    destruct (scope_eq_dec s' s) as [->|]; [|discriminate]. inversion H. subst. unfold coin, coin_key. rewrite D1. reflexivity.
+  - intros s' a' r H. assert (H' := H). unfold D' in H. rewrite ?Hcs in H. unf. rewrite aget_aset in H.
     destruct (sa_dec (s', a') (s, 0)) as [E|E].
     + inversion E. inversion H. subst. splits.
-      * unfold row_ok. simpl. splits; try reflexivity. unfold acct_key, coin_key. rewrite D1. reflexivity.
+      * unfold row_ok. simpl. splits; try reflexivity. unfold coin, acct_key, coin_key. rewrite D1. reflexivity.
       * rewrite Hnew. reflexivity.
-      * unfold D', create_scope. unf. destruct sl; [rewrite aget_aset_eq; lia|].
+      * unfold D'. rewrite ?Hcs. unf. destruct sl; [rewrite aget_aset_eq; lia|].
         destruct (aget scope_eq_dec (d_last D) s); [lia|reflexivity].
     + destruct (D3 s' a' r H) as (X1 & X2 & X3). splits; try assumption.
       * destruct (aget scope_eq_dec (d_scopes D) s') as [x|] eqn:E'; [|discriminate]. rewrite (Gs _ _ E'). reflexivity.
-      * unfold D', create_scope. unf. destruct sl; [|exact X3]. rewrite aget_aset.
+      * unfold D'. rewrite ?Hcs. unf. destruct sl; [|exact X3]. rewrite aget_aset.
         destruct (scope_eq_dec s' s) as [->|]; [|exact X3]. rewrite Es in X2. discriminate.
   - intros s' k r H. eapply addr_row_ok_grow; [exact Gr|]. apply D4. exact H.
   - exact D5.
-  - unfold D', create_scope. unf. rewrite map_app. simpl. apply NoDup_snoc; [exact D6|]. exact (aget_None_notin _ _ _ Es).
-  - intros s' l H. unfold D', create_scope in H. unf. destruct sl.
+  - unfold D'. rewrite ?Hcs. unf. rewrite map_app. simpl. apply NoDup_snoc; [exact D6|]. exact (aget_None_notin _ _ _ Es).
+  - intros s' l H. unfold D' in H. rewrite ?Hcs in H. unf. destruct sl.
     + rewrite aget_aset in H. destruct (scope_eq_dec s' s) as [->|]; [rewrite Hnew; reflexivity|].
       specialize (D7 s' l H). destruct (aget scope_eq_dec (d_scopes D) s') as [x|] eqn:E'; [|discriminate].
       rewrite (Gs _ _ E'). reflexivity.
@@ -3421,11 +3591,11 @@ Section ops8.
     match goal with |- context [new_account_row st s name ?f] =>
       destruct (new_account_row_post st s name f G Hl) as (G1 & A1 & M1 & P1 & X1 & _) end; [|splits; assumption].
     intros l r L Hr. pose proof (i_disk _ _ _ I) as (D1 & D2 & _).
-    rewrite (D2 s sch' coin Es) in Hr. simpl in Hr. inversion Hr. subst r. clear Hr.
-    unfold row_ok. simpl. splits; try reflexivity.
-    unfold raw_child, is_hardened, acct_key.
-    assert (Hh : hardened_start <=? l + 1 + hardened_start = true) by (apply N.leb_le; lia). rewrite Hh.
-    replace (l + 1 + hardened_start - hardened_start) with (l + 1) by lia. reflexivity.
+    rewrite (D2 s sch' coin Es) in Hr.
+    (* a later account (l + 1 >= 1) from the coin-type key read back at full width: BIP32, as specified *)
+    cbn [x_derive rule_of_width] in Hr. rewrite (ckd_later_account seed (fst s) (snd s) (l + 1)) in Hr by lia.
+    simpl in Hr. inversion Hr. subst r. clear Hr.
+    unfold row_ok. simpl. splits; reflexivity.
   Qed.
 
   Lemma step_importxpub b st s name x cn fp osch :
@@ -3463,7 +3633,7 @@ Section ops9.
   Qed.
 
   Lemma step_import_common st s o row :
-    Good seed st -> m_locked (st_mem st) = false ->
+    Good seed st ->
     addr_row_ok (st_disk st) s (obj_akey o) row -> obj_ok (st_disk st) o -> obj_scope o = s ->
     (forall ma, o = MKey ma -> ma_imported ma = true) ->
     let st1 := upd_disk (fun d => set_d_addrs (aset sk_dec (d_addrs d) (s, obj_akey o) row) d) st in
@@ -3471,23 +3641,23 @@ Section ops9.
     let oid := snd (alloc st1 o) in
     let st4 := fst (report (cache_addr st2 s (obj_akey o) oid) oid) in
     let r := snd (report (cache_addr st2 s (obj_akey o) oid) oid) in
-    Good seed st4 /\ (Avail st -> Avail st4) /\ m_locked (st_mem st4) = false /\
+    Good seed st4 /\ (Avail st -> Avail st4) /\ m_locked (st_mem st4) = m_locked (st_mem st) /\
     d_accts (st_disk st4) = d_accts (st_disk st) /\ d_next (st_disk st4) = d_next (st_disk st) /\
     d_scopes (st_disk st4) = d_scopes (st_disk st) /\
-    rinfo_desc false o r /\ rinfo_ok (st_disk st4) false r.
+    rinfo_desc (m_locked (st_mem st)) o r /\ rinfo_ok (st_disk st4) (m_locked (st_mem st)) r.
   Proof.
-    intros G Hl Hrow Hobj Hsc Himp. pose proof G as (I & NX & HCs). rewrite Hl in I.
+    intros G Hrow Hobj Hsc Himp. pose proof G as (I & NX & HCs). set (lkd := m_locked (st_mem st)) in *.
     intros st1 st2 oid st4 r.
-    destruct (put_addr_post false st s (obj_akey o) row I Hrow) as (I1 & E1 & M1 & X1). fold st1 in I1, E1, M1, X1.
+    destruct (put_addr_post lkd st s (obj_akey o) row I Hrow) as (I1 & E1 & M1 & X1). fold st1 in I1, E1, M1, X1.
     assert (Hobj1 : obj_ok (st_disk st1) o).
     { eapply obj_ok_same; [| |exact Hobj]; [apply (ext_accts _ _ E1)|apply (ext_dscopes _ _ E1)]. }
-    destruct (alloc_post seed false st1 o I1 Hobj1) as (I2 & E2 & A1 & A2 & A3 & A4 & A5 & A6).
+    destruct (alloc_post seed lkd st1 o I1 Hobj1) as (I2 & E2 & A1 & A2 & A3 & A4 & A5 & A6).
     fold st2 in I2, E2, A2, A3, A4, A5, A6. fold oid in A1.
     assert (Hnth : nth_error (m_heap (st_mem st2)) oid = Some o).
     { rewrite A2, A1, nth_error_snoc, Nat.ltb_irrefl, Nat.eqb_refl. reflexivity. }
     assert (Hfield : acct_field_ok (st_disk st2) o).
     { destruct o as [ma|]; simpl; [|exact Logic.I]. intros Hi. rewrite (Himp ma eq_refl) in Hi. discriminate. }
-    destruct (cache_addr_post seed false st2 s (obj_akey o) oid o I2 Hnth eq_refl Hsc Hfield) as (I3 & E3).
+    destruct (cache_addr_post seed lkd st2 s (obj_akey o) oid o I2 Hnth eq_refl Hsc Hfield) as (I3 & E3).
     set (st3 := cache_addr st2 s (obj_akey o) oid) in *.
     assert (E03 : ext st st3) by (eapply ext_trans; [exact E1|]; eapply ext_trans; eauto).
     assert (Hnth3 : nth_error (m_heap (st_mem st3)) oid = Some o) by (unfold st3; unf; exact Hnth).
@@ -3506,7 +3676,6 @@ Section ops9.
       { change (st_disk st3) with (st_disk st2). rewrite A3. exact X1. }
       intros s' a' ai H. rewrite Ha3 in H. destruct (NX s' a' ai H) as (Y1 & Y2).
       unfold disk_next in *. rewrite Hn3. split; assumption. }
-    rewrite <- Hl in I3.
     assert (Hv : Forall (fun x => (x < length (m_heap (st_mem st3)))%nat) [oid]).
     { constructor; [eapply nth_error_Some_lt; eauto|constructor]. }
     destruct (grow_then_report seed st st3 [oid] G I3 E03 N03 X3 Hv) as (G4 & A4' & K4 & L4 & R4).
@@ -3514,7 +3683,6 @@ Section ops9.
     assert (Hr : report st3 oid = (st4, r)) by (unfold st4, r; destruct (report st3 oid); reflexivity).
     rewrite Hr in G4, A4', K4, L4, R4. cbn [fst snd] in G4, A4', K4, L4, R4.
     inversion R4 as [|? ? ? ? (o' & O1 & O2 & O3 & _) Hnil]. subst. rewrite Hnth3 in O1. inversion O1. subst o'.
-    rewrite Hl in L4, O2, O3.
     assert (K4a : d_accts (st_disk st4) = d_accts (st_disk st)) by (rewrite K4; apply (ext_accts _ _ E03)).
     assert (K4s : d_scopes (st_disk st4) = d_scopes (st_disk st)) by (rewrite K4; apply (ext_dscopes _ _ E03)).
     assert (K4n : d_next (st_disk st4) = d_next (st_disk st)).
@@ -3548,27 +3716,66 @@ Section ops10.
     destruct (exists_address st s (obj_akey (MKey ma))); [simpl; splits; auto|].
     destruct (i_scopes _ _ _ I s sch (aget_In _ _ _ _ Es)) as (coin & Hc).
     assert (Hrow : addr_row_ok (st_disk st) s (obj_akey (MKey ma)) (RImported (imp_key k) (Some (imp_key k)))).
-    { simpl. exists k, sch, coin. splits; try reflexivity. exact Hc. }
+    { simpl. exists k, sch, coin, false. splits; try reflexivity. exact Hc. }
     assert (Hobj : obj_ok (st_disk st) (MKey ma)).
     { simpl. split.
       - unfold keys_ok. simpl. split; intros x Hx; inversion Hx; reflexivity.
-      - exists k, sch, coin. simpl. splits; try reflexivity. exact Hc. }
-    destruct (step_import_common seed st s (MKey ma) _ G El Hrow Hobj eq_refl)
+      - exists k, sch, coin, false. simpl. splits; try reflexivity. exact Hc. }
+    destruct (step_import_common seed st s (MKey ma) _ G Hrow Hobj eq_refl)
       as (G4 & A4 & L4 & K1 & K2 & K3 & R1 & R2).
     { intros mb Hb. inversion Hb. reflexivity. }
     destruct (alloc _ (MKey ma)) as [st2 oid] eqn:Ea. simpl in G4, A4, L4, K1, K2, K3, R1, R2.
     destruct (report (cache_addr st2 s (obj_akey (MKey ma)) oid) oid) as [st4 r] eqn:Er. simpl in *.
-    unfold locked in El. rewrite El. splits; try assumption.
-    subst r. eexists. split; [reflexivity|]. simpl. splits; reflexivity.
+    try unfold locked in El. splits; try assumption; try (rewrite El; assumption).
+    try subst r. eexists. split; [reflexivity|]. simpl. rewrite El. splits; reflexivity.
   Qed.
 
-  Lemma step_importscript b st s sc :
+  (** ImportPublicKey: the public key comes back unchanged, in the scope's
+      external format; there is no private key to return, locked or not *)
+  Lemma step_importpub b st s k :
     Good seed st ->
-    let st' := fst (step b st (OImportScript s sc)) in
+    let st' := fst (step b st (OImportPub s k)) in
     Good seed st' /\ (Avail st -> Avail st') /\ m_locked (st_mem st') = m_locked (st_mem st) /\
     d_accts (st_disk st') = d_accts (st_disk st) /\ d_next (st_disk st') = d_next (st_disk st) /\
     d_scopes (st_disk st') = d_scopes (st_disk st) /\
-    match snd (step b st (OImportScript s sc)) with
+    match snd (step b st (OImportPub s k)) with
+    | OutAddrs [r] => rinfo_ok (st_disk st') (m_locked (st_mem st)) r /\
+                      exists i sch, r = RKey i /\ r_imported i = true /\ r_pub i = Pub (imp_pub_key k) /\
+                                aget scope_eq_dec (m_scopes (st_mem st)) s = Some sch /\ r_fmt i = ext_fmt sch /\
+                                r_priv i = PErr (if m_locked (st_mem st) then ELocked else EWatching)
+    | OutErr _ => True
+    | _ => False
+    end.
+  Proof.
+    intros G. pose proof G as (I & NX & HCs). cbn [step]. unfold with_scope.
+    destruct (aget scope_eq_dec (m_scopes (st_mem st)) s) as [sch|] eqn:Es; [|simpl; splits; auto].
+    cbv zeta.
+    set (ma := mkMA s imported_path (ext_fmt sch) (Pub (imp_pub_key k)) true false None None).
+    destruct (exists_address st s (obj_akey (MKey ma))); [simpl; splits; auto|].
+    destruct (i_scopes _ _ _ I s sch (aget_In _ _ _ _ Es)) as (coin & Hc).
+    assert (Hrow : addr_row_ok (st_disk st) s (obj_akey (MKey ma)) (RImported (imp_pub_key k) None)).
+    { simpl. exists k, sch, coin, true. splits; try reflexivity. exact Hc. }
+    assert (Hobj : obj_ok (st_disk st) (MKey ma)).
+    { simpl. split.
+      - unfold keys_ok. simpl. split; intros x Hx; discriminate.
+      - exists k, sch, coin, true. simpl. splits; try reflexivity. exact Hc. }
+    destruct (step_import_common seed st s (MKey ma) _ G Hrow Hobj eq_refl)
+      as (G4 & A4 & L4 & K1 & K2 & K3 & R1 & R2).
+    { intros mb Hb. inversion Hb. reflexivity. }
+    destruct (alloc _ (MKey ma)) as [st2 oid] eqn:Ea. simpl in G4, A4, L4, K1, K2, K3, R1, R2.
+    destruct (report (cache_addr st2 s (obj_akey (MKey ma)) oid) oid) as [st4 r] eqn:Er.
+    cbn [fst snd] in *. splits; try assumption.
+    subst r. eexists. exists sch. split; [reflexivity|]. simpl. splits; try reflexivity.
+    destruct (m_locked (st_mem st)); reflexivity.
+  Qed.
+
+  Lemma step_importscript b st s sc secret :
+    Good seed st ->
+    let st' := fst (step b st (OImportScript s sc secret)) in
+    Good seed st' /\ (Avail st -> Avail st') /\ m_locked (st_mem st') = m_locked (st_mem st) /\
+    d_accts (st_disk st') = d_accts (st_disk st) /\ d_next (st_disk st') = d_next (st_disk st) /\
+    d_scopes (st_disk st') = d_scopes (st_disk st) /\
+    match snd (step b st (OImportScript s sc secret)) with
     | OutAddrs [r] => rinfo_ok (st_disk st') (m_locked (st_mem st)) r /\ r = RScr s sc (SOk sc)
     | OutErr _ => True
     | _ => False
@@ -3576,18 +3783,18 @@ Section ops10.
   Proof.
     intros G. pose proof G as (I & NX & HCs). cbn [step]. unfold with_scope.
     destruct (aget scope_eq_dec (m_scopes (st_mem st)) s) as [sch|] eqn:Es; [|simpl; splits; auto].
-    destruct (locked st) eqn:El; [simpl; splits; auto|].
+    destruct (secret && locked st) eqn:El; [simpl; splits; auto|].
     destruct (exists_address st s (KScript sc)); [simpl; splits; auto|].
-    set (o := MScript (mkSA s sc (Some sc) (Some sc))).
+    set (o := MScript (mkSA s sc (Some sc) (Some sc) secret)).
     assert (Hobj : obj_ok (st_disk st) o).
     { simpl. split; [reflexivity|]. intros c Hc. inversion Hc. reflexivity. }
-    destruct (step_import_common seed st s o (RScript sc) G El eq_refl Hobj eq_refl)
+    destruct (step_import_common seed st s o (RScript sc secret) G eq_refl Hobj eq_refl)
       as (G4 & A4 & L4 & K1 & K2 & K3 & R1 & R2).
     { intros mb Hb. discriminate. }
     change (obj_akey o) with (KScript sc) in *.
     destruct (alloc _ o) as [st2 oid] eqn:Ea. simpl in G4, A4, L4, K1, K2, K3, R1, R2.
     destruct (report (cache_addr st2 s (KScript sc) oid) oid) as [st4 r] eqn:Er. simpl in *.
-    unfold locked in El. rewrite El. splits; assumption.
+    try unfold locked in El. splits; try assumption. subst r. simpl. rewrite El. reflexivity.
   Qed.
 
   (** every admissible operation preserves the run invariants *)
@@ -3608,10 +3815,12 @@ Section ops10.
     - apply (step_derive seed (mkFacts true sl cg) st s p G).
     - apply (step_derivecache seed (mkFacts true sl cg) st s p G).
     - apply (step_importkey (mkFacts true sl cg) st s k G).
-    - apply (step_importscript (mkFacts true sl cg) st s sc G).
+    - apply (step_importscript (mkFacts true sl cg) st s sc secret G).
     - apply (step_props seed (mkFacts true sl cg) st s a G).
     - apply (step_priv seed (mkFacts true sl cg) st h G).
     - apply (step_script seed (mkFacts true sl cg) st h G).
+    - apply (step_importpub (mkFacts true sl cg) st s k G).
+    - apply (step_chpubpass seed (mkFacts true sl cg) st old new G).
   Qed.
 
   (** ... and, when extendAddresses uses nextAddresses' watch-only test,
@@ -3633,10 +3842,12 @@ Section ops10.
     - apply (step_derive seed (mkFacts true sl cg) st s p G); exact A.
     - apply (step_derivecache seed (mkFacts true sl cg) st s p G); exact A.
     - apply (step_importkey (mkFacts true sl cg) st s k G); exact A.
-    - apply (step_importscript (mkFacts true sl cg) st s sc G); exact A.
+    - apply (step_importscript (mkFacts true sl cg) st s sc secret G); exact A.
     - apply (step_props seed (mkFacts true sl cg) st s a G); exact A.
     - apply (step_priv seed (mkFacts true sl cg) st h G); exact A.
     - apply (step_script seed (mkFacts true sl cg) st h G); exact A.
+    - apply (step_importpub (mkFacts true sl cg) st s k G); exact A.
+    - apply (step_chpubpass seed (mkFacts true sl cg) st old new G); exact A.
   Qed.
 End ops10.
 
@@ -3664,7 +3875,7 @@ Section init.
   Lemma init_good pass : Good seed (init seed pass) /\ Avail (init seed pass).
   Proof.
     unfold init. apply fresh_mem_good.
-    assert (H0 : disk_ok seed (mkDisk (master seed) pass [] [] [] [] [])).
+    assert (H0 : disk_ok seed (mkDisk (master seed) pass 0 [] [] [] [] [])).
     { unfold disk_ok. simpl. splits; try (intros; discriminate); try reflexivity. constructor. }
     unfold default_scopes. cbn [fold_left fst snd].
     destruct (create_scope_grow seed true _ (49, 0) (mkSchema NP2WKH P2WKH) H0 eq_refl) as (H1 & _).
@@ -3883,10 +4094,12 @@ Section theorems.
     - destruct (step_derive seed (mkFacts true sl cg) st s0 p G) as (_ & _ & _ & H & _). rewrite H. reflexivity.
     - destruct (step_derivecache seed (mkFacts true sl cg) st s0 p G) as (_ & _ & _ & H & _). rewrite H. reflexivity.
     - destruct (step_importkey seed (mkFacts true sl cg) st s0 k G) as (_ & _ & _ & _ & H & _). unfold disk_next. rewrite H. reflexivity.
-    - destruct (step_importscript seed (mkFacts true sl cg) st s0 sc G) as (_ & _ & _ & _ & H & _). unfold disk_next. rewrite H. reflexivity.
+    - destruct (step_importscript seed (mkFacts true sl cg) st s0 sc secret G) as (_ & _ & _ & _ & H & _). unfold disk_next. rewrite H. reflexivity.
     - destruct (step_props seed (mkFacts true sl cg) st s0 a0 G) as (_ & _ & _ & H & _). rewrite H. reflexivity.
     - destruct (step_priv seed (mkFacts true sl cg) st h G) as (_ & _ & _ & H & _). rewrite H. reflexivity.
     - destruct (step_script seed (mkFacts true sl cg) st h G) as (_ & _ & _ & H & _). rewrite H. reflexivity.
+    - destruct (step_importpub seed (mkFacts true sl cg) st s0 k G) as (_ & _ & _ & _ & H & _). unfold disk_next. rewrite H. reflexivity.
+    - destruct (step_chpubpass seed (mkFacts true sl cg) st old new G) as (_ & _ & _ & H). apply H.
   Qed.
 End theorems.
 
@@ -3904,32 +4117,35 @@ Section priv_theorems.
       imported key, and any key stored in it is the key of its public key *)
   Theorem handle_obj_ok st h ma :
     reach sl cg seed pass st -> handle_obj st h ma ->
-    if ma_imported ma then exists k, ma_pub ma = Pub (imp_key k)
+    if ma_imported ma then (exists k, ma_pub ma = Pub (imp_key k)) \/ (exists k, ma_pub ma = Pub (imp_pub_key k))
     else exists row sch, acct_of st (ma_scope ma) (dp_iacct (ma_path ma)) row sch /\
            ma_pub ma = Pub (path_skey (ar_pub row) (dp_branch (ma_path ma)) (dp_index (ma_path ma))) /\
            ma_fmt ma = row_fmt sch row (dp_branch (ma_path ma)).
   Proof.
     intros R (oid & _ & Ho). destruct (reach_good _ _ _ _ _ R) as (I & _).
     destruct (i_heap _ _ _ I _ _ Ho) as (_ & H). destruct (ma_imported ma).
-    - destruct H as (n & _ & _ & H1 & _). eauto.
+    - destruct H as (n & _ & _ & [|] & H1 & _); [right|left]; eauto.
     - destruct H as (row & sch & coin & H1 & H2 & H3 & H4 & _). exists row, sch. unfold acct_of. eauto.
   Qed.
 
   (** PrivKey() on any held address of an account that has a private key, or
-      on an imported key, returns exactly the private key of its public key
-      whenever the manager is unlocked *)
+      on a key imported with its private key (WIF), returns exactly the
+      private key of its public key whenever the manager is unlocked *)
   Theorem priv_key_available st h ma :
     reach sl cg seed pass st -> handle_obj st h ma -> m_locked (st_mem st) = false ->
     (ma_imported ma = false ->
      exists row, aget sa_dec (d_accts (st_disk st)) (ma_scope ma, dp_iacct (ma_path ma)) = Some row /\
                  ar_priv row <> None) ->
+    (ma_imported ma = true -> exists k, ma_pub ma = Pub (imp_key k)) ->
     snd (step (mkFacts true sl cg) st (OPriv h)) = OutKey (Priv (skey_of_pub (ma_pub ma))).
   Proof.
-    intros R (oid & Hh & Ho) Hl Hrow. pose proof (reach_good _ _ _ _ _ R) as G. pose proof (reach_avail _ _ _ _ _ R) as A.
+    intros R (oid & Hh & Ho) Hl Hrow Himp. pose proof (reach_good _ _ _ _ _ R) as G. pose proof (reach_avail _ _ _ _ _ R) as A.
     destruct (step_priv seed (mkFacts true sl cg) st h G) as (_ & _ & _ & _ & H). rewrite (H oid ma Hh Ho), Hl.
     destruct G as (I & _). destruct (i_heap _ _ _ I _ _ Ho) as (_ & Hobj).
     destruct (ma_imported ma) eqn:Ei.
-    - destruct Hobj as (n & _ & _ & _ & E & _). rewrite E. reflexivity.
+    - destruct Hobj as (n & _ & _ & po & E0 & E & _). destruct (Himp eq_refl) as (k & Ek).
+      rewrite Ek in E0. inversion E0 as [E1]. symmetry in E1. destruct (imp_name_private _ _ _ E1) as (-> & _).
+      rewrite E. reflexivity.
     - destruct (Hrow eq_refl) as (row & Hr & Hp).
       destruct (A oid ma row Ho Ei Hr Hp) as [X|(X & _)]; [|congruence].
       destruct (ma_enc ma); [reflexivity|contradiction].
@@ -3972,45 +4188,161 @@ Section priv_theorems.
 
   Theorem imported_key_later st ad st' i :
     reach sl cg seed pass st -> step (mkFacts true sl cg) st (OLookup ad) = (st', OutAddrs [RKey i]) -> r_imported i = true ->
-    exists k, r_pub i = Pub (imp_key k) /\ addr_key (AKey (r_fmt i) (Pub (imp_key k))) = addr_key ad /\
-              (m_locked (st_mem st) = false -> r_priv i = POk (Priv (imp_key k))).
+    exists k po, r_pub i = Pub (imp_name po k) /\ addr_key (AKey (r_fmt i) (Pub (imp_name po k))) = addr_key ad /\
+              (m_locked (st_mem st) = false -> r_priv i = if po then PErr EWatching else POk (Priv (imp_key k))).
   Proof.
     intros R Hs Hi. pose proof (reach_good _ _ _ _ _ R) as G.
     pose proof (step_lookup seed (mkFacts true sl cg) st ad G) as H. rewrite Hs in H. cbn [fst snd] in H.
     destruct H as (_ & _ & _ & _ & H1 & _ & H3 & _). simpl in H1. rewrite Hi in H1.
-    destruct H1 as (_ & _ & n & P1 & _ & _ & P4). exists n. simpl in H3. rewrite P1 in H3. auto.
+    destruct H1 as (_ & _ & n & po & P1 & _ & _ & P4). exists n, po. simpl in H3. rewrite P1 in H3. auto.
   Qed.
 
-  Theorem imported_script_unchanged st s sc st' rs :
-    reach sl cg seed pass st -> step (mkFacts true sl cg) st (OImportScript s sc) = (st', OutAddrs rs) -> rs = [RScr s sc (SOk sc)].
+  (** ImportPublicKey: the public key is returned unchanged, encoded in the
+      scope's external format, and no private key is ever returned for it *)
+  Theorem imported_pub_unchanged st s k st' rs :
+    reach sl cg seed pass st -> step (mkFacts true sl cg) st (OImportPub s k) = (st', OutAddrs rs) ->
+    exists i sch, rs = [RKey i] /\ r_imported i = true /\ r_pub i = Pub (imp_pub_key k) /\
+                  aget scope_eq_dec (m_scopes (st_mem st)) s = Some sch /\ r_fmt i = ext_fmt sch /\
+                  r_priv i = PErr (if m_locked (st_mem st) then ELocked else EWatching).
   Proof.
     intros R Hs. pose proof (reach_good _ _ _ _ _ R) as G.
-    pose proof (step_importscript seed (mkFacts true sl cg) st s sc G) as H. rewrite Hs in H. cbn [fst snd] in H.
+    pose proof (step_importpub seed (mkFacts true sl cg) st s k G) as H. rewrite Hs in H. cbn [fst snd] in H.
+    destruct H as (_ & _ & _ & _ & _ & _ & H). destruct rs as [|r [|]]; try contradiction.
+    destruct H as (_ & i & sch & -> & H). exists i, sch. tauto.
+  Qed.
+
+  Theorem imported_script_unchanged st s sc secret st' rs :
+    reach sl cg seed pass st -> step (mkFacts true sl cg) st (OImportScript s sc secret) = (st', OutAddrs rs) -> rs = [RScr s sc (SOk sc)].
+  Proof.
+    intros R Hs. pose proof (reach_good _ _ _ _ _ R) as G.
+    pose proof (step_importscript seed (mkFacts true sl cg) st s sc secret G) as H. rewrite Hs in H. cbn [fst snd] in H.
     destruct H as (_ & _ & _ & _ & _ & _ & H). destruct rs as [|r [|]]; try contradiction.
     destruct H as (_ & ->). reflexivity.
   Qed.
 
+  (** Script() of a held script address: the imported script, whenever the
+      manager is unlocked - and at any time for a script imported as public *)
   Theorem script_later st h oid sa :
     reach sl cg seed pass st -> nth_error (m_handles (st_mem st)) h = Some oid ->
-    nth_error (m_heap (st_mem st)) oid = Some (MScript sa) -> m_locked (st_mem st) = false ->
+    nth_error (m_heap (st_mem st)) oid = Some (MScript sa) -> (m_locked (st_mem st) = false \/ sa_secret sa = false) ->
     snd (step (mkFacts true sl cg) st (OScript h)) = OutScript (sa_script sa).
   Proof.
     intros R Hh Ho Hl. pose proof (reach_good _ _ _ _ _ R) as G.
-    destruct (step_script seed (mkFacts true sl cg) st h G) as (_ & _ & _ & _ & H). rewrite (H oid sa Hh Ho), Hl. reflexivity.
+    destruct (step_script seed (mkFacts true sl cg) st h G) as (_ & _ & _ & _ & H). rewrite (H oid sa Hh Ho).
+    destruct Hl as [->| ->]; [rewrite andb_false_r|]; reflexivity.
   Qed.
 End priv_theorems.
 
-(** Two wallets created from the same seed (any passphrases, any histories,
-    any source version) agree on the key of every seed-derived account,
-    branch and index, hence on the address whenever the formats agree. *)
-Theorem same_seed_same_keys sl1 cg1 sl2 cg2 seed pass1 pass2 st1 st2 s a row1 row2 :
+(** the address of child branch/index of an account row under a scope schema *)
+Definition chain_addr (sch : schema) (row : acct_row) (b i : N) : addr :=
+  AKey (row_fmt sch row b) (Pub (path_skey (ar_pub row) b i)).
+
+(** Two wallets created INDEPENDENTLY from the same seed (any passphrases, any
+    histories, any source version of the two regenerated facts): every
+    seed-derived account they both have holds the key the specification assigns
+    to m/purpose'/coin'/account' - a function of the seed and the path alone -
+    and, where the scope has the same address schema in both (the schema is an
+    input: a constant of Create for the default scopes, the argument of
+    NewScopedKeyManager otherwise), the address of every branch and index is the
+    same in both. *)
+Theorem same_seed_same_addresses sl1 cg1 sl2 cg2 seed pass1 pass2 st1 st2 s a row1 row2 sch b i :
   reach sl1 cg1 seed pass1 st1 -> reach sl2 cg2 seed pass2 st2 ->
-  aget sa_dec (d_accts (st_disk st1)) (s, a) = Some row1 -> aget sa_dec (d_accts (st_disk st2)) (s, a) = Some row2 ->
+  acct_of st1 s a row1 sch -> acct_of st2 s a row2 sch ->
   ar_kind row1 = ADefault -> ar_kind row2 = ADefault ->
-  ar_pub row1 = ar_pub row2 /\ row_fmt (mkSchema P2PKH P2PKH) row1 = row_fmt (mkSchema P2PKH P2PKH) row2.
+  ar_pub row1 = acct_key seed (fst s) (snd s) a /\ ar_pub row2 = acct_key seed (fst s) (snd s) a /\
+  chain_addr sch row1 b i = chain_addr sch row2 b i.
 Proof.
-  intros R1 R2 H1 H2 K1 K2.
+  intros R1 R2 (H1 & _) (H2 & _) K1 K2.
   pose proof (account_keys _ _ _ _ _ _ _ _ R1 H1) as A1. pose proof (account_keys _ _ _ _ _ _ _ _ R2 H2) as A2.
   rewrite K1 in A1. rewrite K2 in A2. destruct A1 as (E1 & _ & S1). destruct A2 as (E2 & _ & S2).
-  split; [congruence|]. unfold row_fmt. rewrite S1, S2. reflexivity.
+  split; [exact E1|split; [exact E2|]]. unfold chain_addr, row_fmt. rewrite S1, S2, E1, E2. reflexivity.
 Qed.
+
+(* ------------------------------------------- the rule of every hardened step *)
+
+(** For EVERY assignment [lz] of leading zero bytes: the derivation hdkeychain
+    performs at each hardened step of the wallet - DeriveNonStandard on a parent
+    held at the width the model (following the code) holds it - yields the key
+    the specification names. *)
+Section rule_theorems.
+  Variable lz : skey -> bool.
+
+  Lemma hardened_plus i : is_hardened (i + hardened_start) = true.
+  Proof. unfold is_hardened. apply N.leb_le. lia. Qed.
+
+  Lemma raw_child_hardened k i : raw_child k (i + hardened_start) = child k i true.
+  Proof. unfold raw_child. rewrite hardened_plus. replace (i + hardened_start - hardened_start) with i by lia. reflexivity. Qed.
+
+  (** m -> purpose': the master key is held at full width (NewMaster / read back): BIP32 = specified *)
+  Theorem rule_purpose_step seed pu :
+    spec_rule (master seed) (pu + hardened_start) = Std /\
+    ckd lz (rule_of_width Full) (master seed) (pu + hardened_start) = child (master seed) pu true.
+  Proof. split; [reflexivity|]. rewrite <- (raw_child_hardened (master seed) pu). apply (ckd_spec lz (master seed)). Qed.
+
+  (** purpose' -> coin': the purpose key is a derivation result (shortened): legacy = specified *)
+  Theorem rule_coin_step seed pu co :
+    spec_rule (child (master seed) pu true) (co + hardened_start) = Leg /\
+    ckd lz (rule_of_width Short) (child (master seed) pu true) (co + hardened_start) = coin_key seed pu co.
+  Proof.
+    split; [reflexivity|]. unfold coin_key. rewrite <- (raw_child_hardened (child (master seed) pu true) co).
+    apply (ckd_spec lz (child (master seed) pu true)).
+  Qed.
+
+  (** coin' -> 0': from the coin-type key just derived (shortened): legacy = specified *)
+  Theorem rule_account0_step seed pu co :
+    spec_rule (coin_key seed pu co) (0 + hardened_start) = Leg /\
+    ckd lz (rule_of_width Short) (coin_key seed pu co) (0 + hardened_start) = acct_key seed pu co 0.
+  Proof.
+    split; [reflexivity|]. unfold acct_key. rewrite <- (raw_child_hardened (coin_key seed pu co) 0).
+    apply (ckd_spec lz (coin_key seed pu co)).
+  Qed.
+
+  (** coin' -> a', a >= 1: from the coin-type key read back (full width): BIP32 = specified *)
+  Theorem rule_later_account_step seed pu co a :
+    a <> 0 ->
+    spec_rule (coin_key seed pu co) (a + hardened_start) = Std /\
+    ckd lz (rule_of_width Full) (coin_key seed pu co) (a + hardened_start) = acct_key seed pu co a.
+  Proof.
+    intros Ha.
+    assert (Hs : spec_rule (coin_key seed pu co) (a + hardened_start) = Std).
+    { unfold spec_rule, coin_key, child, master. simpl.
+      destruct (a + hardened_start =? hardened_start) eqn:E; [apply N.eqb_eq in E; lia|reflexivity]. }
+    split; [exact Hs|]. unfold acct_key. rewrite <- (raw_child_hardened (coin_key seed pu co) a).
+    change (rule_of_width Full) with Std. rewrite <- Hs. apply ckd_spec.
+  Qed.
+
+  (** account' -> branch (a hardened request): account key read back (full width): BIP32 = specified *)
+  Theorem rule_branch_step seed pu co a b :
+    spec_rule (acct_key seed pu co a) b = Std /\
+    ckd lz (rule_of_width Full) (acct_key seed pu co a) b = raw_child (acct_key seed pu co a) b.
+  Proof. split; [reflexivity|]. apply (ckd_spec lz (acct_key seed pu co a)). Qed.
+
+  (** branch -> index (a hardened request): branch key is a derivation result (shortened): legacy = specified *)
+  Theorem rule_index_step seed pu co a b i :
+    spec_rule (raw_child (acct_key seed pu co a) b) i = Leg /\
+    ckd lz (rule_of_width Short) (raw_child (acct_key seed pu co a) b) i = raw_child (raw_child (acct_key seed pu co a) b) i.
+  Proof.
+    assert (Hs : spec_rule (raw_child (acct_key seed pu co a) b) i = Leg)
+      by (unfold raw_child; destruct (is_hardened b); reflexivity).
+    split; [exact Hs|]. change (rule_of_width Short) with Leg. rewrite <- Hs. apply ckd_spec.
+  Qed.
+
+  (** and the rule matters: at each of these steps the OTHER width yields
+      another key as soon as the parent key has a leading zero byte *)
+  Theorem other_rule_other_key w k i :
+    is_hardened i = true -> lz k = true -> rule_of_width w <> spec_rule k i -> ckd lz (rule_of_width w) k i <> raw_child k i.
+  Proof. apply ckd_wrong_rule. Qed.
+End rule_theorems.
+
+(** The model derives with these widths (createManagerKeyScope: three steps from
+    the root; newAccount: later accounts; deriveKey: branch and index), and with
+    the worst-case [all_lz] any other rule would have left the key tree
+    ([ckd_all_lz_iff]); so [account_keys], [derive_correct] and the address
+    theorems above say that every hardened step of every reachable state was
+    made with the specified rule.  What another width would have done: *)
+Example account_later_from_derived_coin_key_is_another_key :
+  x_derive (XPriv (coin_key 7 84 0) Short) (1 + hardened_start) <> Some (XPriv (acct_key 7 84 0 1) Short) /\
+  x_derive (XPriv (coin_key 7 84 0) Full) (1 + hardened_start) = Some (XPriv (acct_key 7 84 0 1) Short) /\
+  x_derive (XPriv (coin_key 7 84 0) Full) (0 + hardened_start) <> Some (XPriv (acct_key 7 84 0 0) Short) /\
+  x_derive (XPriv (coin_key 7 84 0) Short) (0 + hardened_start) = Some (XPriv (acct_key 7 84 0 0) Short).
+Proof. vm_compute. repeat split; try reflexivity; intros H; discriminate. Qed.
